@@ -38,7 +38,7 @@ func registerBW() {
 		Assume: []string{"finder calls are keyed by (package directory, sub-path, finder); coalesced twin packages share a key and the expected count is the number of model pairs mapping to it"},
 		Real:   real, Sim: bwSim}
 	plans["C17"] = &Plan{ID: "C17", Level: "exploration",
-		Legs: []Leg{{World: "bw", Profile: "versions", Quick: 3000, Weight: 3}, {World: "bw", Profile: "clean", Quick: 1500, Weight: 1}},
+		Legs: []Leg{{World: "bw", Profile: "versions", Quick: 3000, Weight: 3}, {World: "bw", Profile: "clean", Quick: 1500, Weight: 1}, {World: "bw", Profile: "errors", Quick: 1000, Weight: 1}},
 		Rule: "each evaluation = one build with registry requests (several against the same package, list order permuted, ruby-style constraints incl. exact, pessimistic, ranges, disjoint, pre-release); the versions the bundle holds and the versions the registry client was asked for must equal the brute-force maximum of offered-and-allowed per request; final sources use exactly their version; an empty intersection must produce an error diagnostic; recorded deprecation equals the registry's for that version.",
 		Assume: []string{"versions.Set.Has and version comparison are go-versions' and trusted; no 0.0.0, no versions differing only in build metadata, no duplicates"},
 		Real:   real, Sim: bwSim}
@@ -65,7 +65,7 @@ func registerBW() {
 }
 
 func bwC12Legs() []Leg {
-	return []Leg{{World: "bw", Profile: "faultsweep", Quick: 24, Weight: 3}}
+	return []Leg{{World: "bw", Profile: "faultsweep", Quick: 24, Weight: 3}, {World: "bw", Profile: "errors", Quick: 2000, Weight: 1}}
 }
 
 func bwC19Legs() []Leg {
